@@ -228,6 +228,28 @@ impl ElementHasher for Rp62_248 {
     }
 }
 
+// VERIFICATION HOOKS
+// ================================================================================================
+
+/// Verification hook: the (otherwise private) permutation and its constants, for the
+/// model-checking harness in /verif.
+#[cfg(winterfell_verif)]
+pub(crate) mod verif {
+    use super::*;
+
+    pub fn permutation(state: &mut [BaseElement; STATE_WIDTH]) {
+        apply_permutation(state)
+    }
+
+    pub fn mds() -> [[BaseElement; STATE_WIDTH]; STATE_WIDTH] {
+        MDS
+    }
+
+    pub fn ark() -> ([[BaseElement; STATE_WIDTH]; NUM_ROUNDS], [[BaseElement; STATE_WIDTH]; NUM_ROUNDS]) {
+        (ARK1, ARK2)
+    }
+}
+
 // RESCUE PERMUTATION
 // ================================================================================================
 
